@@ -221,8 +221,8 @@ func bytesToInt(b []byte) *big.Int {
 
 type rawState struct {
 	cnt, id, cur *big.Int
-	ring         map[int]string    // slot byte -> published legacy map
-	pl           map[string][]int  // hex(4-byte epoch key) -> node ids
+	ring         map[int]string   // slot byte -> published legacy map
+	pl           map[string][]int // hex(4-byte epoch key) -> node ids
 	c1, c2       []int
 	unknown      []string
 }
@@ -374,12 +374,12 @@ func clampI64(z *big.Int, max int64) int64 {
 }
 
 type readObs struct {
-	ds, es   []int64
-	snap     []string // per d
-	byE, ln  []string // per e
-	nm       string
-	ep       string
-	next     string
+	ds, es  []int64
+	snap    []string // per d
+	byE, ln []string // per e
+	nm      string
+	ep      string
+	next    string
 }
 
 func i64s(xs []int64) []any {
@@ -403,7 +403,7 @@ func (fx *fixture) testInvoke(signers []util.Uint160, h util.Uint160, method str
 	for _, a := range signers {
 		tx.Signers = append(tx.Signers, transaction.Signer{Account: a, Scopes: transaction.Global})
 	}
-	v, err := fx.c.E.TestInvoke(tx)
+	v, err := fx.c.TestInvoke(tx)
 	if err != nil {
 		return nil, err
 	}
@@ -480,7 +480,7 @@ func (w *world) read(rs rawState) readObs {
 	} else {
 		// a VM-level fault inside one callee cannot be caught by the probe: ask one by one
 		w.run.Count("obs.fallback")
-		ro.snap =w.batch("ints", "snapshot", ro.ds, w.legacyList)
+		ro.snap = w.batch("ints", "snapshot", ro.ds, w.legacyList)
 		ro.byE = w.batch("ints", "snapshotByEpoch", ro.es, w.legacyList)
 		ro.ln = w.batch("lists", "listNodes", ro.es, w.v2List)
 		ro.nm, ro.ep = "F", "F"
